@@ -273,6 +273,9 @@ class CarrierGrid(Case):
             for k_, x in v.items():
                 if k_ in ("x", "z", "lon", "lat") and isinstance(x, list):
                     w[k_] = [None if a is None else float(np.float32(float(a) * 0.1)) for a in x]
+                elif k_ == "members":
+                    # climatology members: value / fail / depth spans scaled like the data
+                    w[k_] = [{kk: (float(vv) * 0.1 if kk in ("vlo", "vhi", "flo", "fhi", "zlo", "zhi") else vv) for kk, vv in m_.items()} for m_ in x]
                 elif k_ in skip or x is None or isinstance(x, (list, dict, str, bool)):
                     w[k_] = x
                 else:
@@ -282,6 +285,28 @@ class CarrierGrid(Case):
         for values in grid:
             iv = inexact(values)
             yield ("data:float32", "data:float32", iv, (lambda values=iv: self.one(values, ("data", "float32"))))
+
+        def mixed(v):
+            # float32 data of mixed magnitude (2**24 next to 1: sums and differences are not float32 numbers)
+            # with parameters on and next to those sums and differences: arithmetic or comparisons carried
+            # out in float32 instead of float64 give other flags
+            data = (1.0, 3.0, 16777216.0, 16777218.0, -16777216.0, 0.5, 16777220.0)
+            pars = (16777217.0, 16777215.0, 16777216.5, 16777219.0, 8388608.5, 33554433.0, 1.5)
+            skip = {"n", "m", "nl", "nt", "t", "D", "period", "min_obs", "min_period", "keep", "st", "ft", "members", "dtype"}
+            w = {}
+            for k_, x in v.items():
+                if k_ in ("x", "z", "lon", "lat") and isinstance(x, list):
+                    w[k_] = [None if a is None else rng.choice(data) for a in x]
+                elif k_ in skip or x is None or isinstance(x, (list, dict, str, bool)):
+                    w[k_] = x
+                else:
+                    w[k_] = rng.choice(pars)
+            return w
+
+        for values in grid:
+            for _ in range(2 if tier == "quick" else 6):
+                mv = mixed(values)
+                yield ("data:float32", "data:float32", mv, (lambda values=mv: self.one(values, ("data", "float32"))))
         for values in grid:
             sv = scaled(values)
             if sv == values:
